@@ -4,7 +4,7 @@
 From Coq Require Import ZArith List Lia Bool.
 From MomoCommon Require Import GenPrelude.
 From C08 Require Gen_GrowCapacity Gen_ArrayBucket Gen_ArrayBucket_cnt Gen_ArrayBucket_s.
-From C08 Require Gen_HashMultiMap.
+From C08 Require Gen_HashMultiMap Gen_VersionCheck Gen_VersionCheck_a.
 From C08 Require Import ArrayBucketModel MultiMapModel VersionModel.
 Local Open Scope Z_scope.
 
@@ -183,3 +183,33 @@ Qed.
 Theorem dead_clear_via_generated cnt ver : no_wrap ver ->
   Gen_HashMultiMap.Clear true cnt ver 0 false = (cnt, ver).
 Proof. intros H. rewrite gen_clear by auto. reflexivity. Qed.
+
+(* ================================================================ the version CHECK inside iterators *)
+(* VersionKeeper<Settings, true>::Check() (what HashMultiMapIterator::operator++ / operator-> / Remove call first), generated
+   for checkMode = exception (Gen_VersionCheck) and = assertion (Gen_VersionCheck_a): it passes iff the iterator has a
+   counter address and the counter still holds the value stored in the iterator *)
+Theorem gen_version_check (mem : Z -> Z) ptr ver :
+  Gen_VersionCheck.Check_self mem ptr ver = (if negb (ptr =? 0) && (mem ptr =? ver) then Ok tt else Exn) /\
+  Gen_VersionCheck_a.Check_self mem ptr ver = (if negb (ptr =? 0) && (mem ptr =? ver) then Ok tt else Stuck).
+Proof.
+  unfold Gen_VersionCheck.Check_self, Gen_VersionCheck_a.Check_self, Gen_VersionCheck.checkMode, Gen_VersionCheck_a.checkMode.
+  simpl. destruct (negb (ptr =? 0) && (mem ptr =? ver)); split; reflexivity.
+Qed.
+
+(* an iterator made on container c (it stores vver c) that passes the generated check after a call o: the call did not touch
+   any value array -- every present key keeps exactly its array and the pair traversal is the same, so the iterator still
+   designates the same pair *)
+Theorem checked_iterator_designates_same_pair M (c : vmm) (o : op) (mem : Z -> Z) ptr :
+  vlive c = true -> NoDup (keys (fst (fst c))) -> mem ptr = vver (vstep1 M c o) ->
+  Gen_VersionCheck.Check_self mem ptr (vver c) = Ok tt ->
+  (forall k e, find k (fst (fst c)) = Some e ->
+     exists e', find k (fst (fst (vstep1 M c o))) = Some e' /\ earr e' = earr e) /\
+  all_pairs (fst (fst (vstep1 M c o))) = all_pairs (fst (fst c)).
+Proof.
+  intros L ND HM HC. destruct (gen_version_check mem ptr (vver c)) as [E _]. rewrite E in HC.
+  destruct (negb (ptr =? 0) && (mem ptr =? vver c)) eqn:B; [|discriminate].
+  apply andb_true_iff in B. destruct B as [_ B]. apply Z.eqb_eq in B.
+  unfold vstep1 in *. rewrite L in *. unfold vver in *. simpl in *.
+  assert (ver_delta M (fst c) o = 0) as D by lia.
+  destruct (version_guards_values M (fst c) o ND D) as (A1 & _ & A3). split; auto.
+Qed.
